@@ -50,16 +50,20 @@ class _Pool:
         f = copy.deepcopy(function)
         return _Sched(f(*copy.deepcopy(tuple(args)), **copy.deepcopy(kwargs or {})))
 
-    def map(self, fn, inputs, timeout=None, **kw):
+    def map(self, fn, inputs, timeout=None, chunksize=1, **kw):
         inputs = list(inputs)
         n = len(inputs)
-        perms = list(it.permutations(range(n)))
+        chunksize = max(1, int(chunksize))
+        chunks = [list(range(i, min(i + chunksize, n))) for i in range(0, n, chunksize)]
+        # pebble: a chunk is one task - its elements run one after the other on ONE unpickled copy of the function
+        perms = list(it.permutations(range(len(chunks)))) if len(chunks) <= 3 else [tuple(range(len(chunks))), tuple(reversed(range(len(chunks))))]
         order = perms[self.owner.ctx.choose(len(perms), "pool execution order")] if self.owner.explore else perms[0]
         self.owner.orders.append(order)
         results = [None] * n
-        for i in order:
+        for ci in order:
             f = copy.deepcopy(fn)  # a task only ever sees a pickled copy
-            results[i] = f(copy.deepcopy(inputs[i]))
+            for i in chunks[ci]:
+                results[i] = f(copy.deepcopy(inputs[i]))
         return _Future(results)
 
 
@@ -126,7 +130,8 @@ class Scan(Scenario):
     isinstance_shim = ["mxlpy.simulation"]
     max_paths = 4000
 
-    def __init__(self, kind, scan_kind, cols, nrows, parallel, fail_row=None, via_mc=False, read=("variables", "fluxes")):
+    def __init__(self, kind, scan_kind, cols, nrows, parallel, fail_row=None, via_mc=False, read=("variables", "fluxes"), max_workers=None):
+        self.max_workers = max_workers
         self.kind = kind
         self.scan_kind = scan_kind
         self.cols = tuple(cols)
@@ -136,7 +141,8 @@ class Scan(Scenario):
         self.via_mc = via_mc
         self.read = tuple(read)
         self.key = (f"C09/{kind}/{'mc.' if via_mc else ''}{scan_kind}/{'+'.join(cols)}/r{nrows}/"
-                    f"{'pool' if parallel else 'seq'}{f'/fail{fail_row}' if fail_row is not None else ''}/{'-'.join(read)}")
+                    f"{'pool' if parallel else 'seq'}{f'/fail{fail_row}' if fail_row is not None else ''}/{'-'.join(read)}"
+                    f"{'' if max_workers is None else '/workers' + str(max_workers)}")
 
     def run(self, ctx):
         import mxlpy.integrators.int_scipy as isc
@@ -167,7 +173,7 @@ class Scan(Scenario):
         base_p = {n: ctx.real(f"p_{n}") for n in m.get_parameter_names() if n != "kia"}
         base_y = {v: ctx.real(f"i_{v}") for v in names}
         table = {c: [ctx.real(f"cell{r}_{c}") for r in range(self.nrows)] for c in self.cols}
-        labels = [5, 2, 9][: self.nrows]  # row labels deliberately not ascending
+        labels = [5, 2, 9, 1, 7, 3][: self.nrows]  # row labels deliberately not ascending
         to_scan = pd.DataFrame(table, index=labels, dtype=object if sym else float)
         if self.fail_row is not None:
             # the designated row's integration reports failure
@@ -201,6 +207,8 @@ class Scan(Scenario):
         kw = {"mc_to_scan": to_scan} if self.via_mc else {"to_scan": to_scan}
         if not self.via_mc:
             kw["parallel"] = self.parallel
+        elif self.max_workers is not None:
+            kw["max_workers"] = self.max_workers
         with ctx.impl("scan"):
             if self.scan_kind == "ss":
                 res = mod.steady_state(m, **kw)
@@ -246,7 +254,8 @@ class Scan(Scenario):
         for what in self.read:
             with ctx.impl(f"read {what}"):
                 df = res.variables if what == "variables" else res.fluxes
-            cols = names if what == "variables" else list(fluxes_of(self.kind if self.kind != "ia_decay" else "decay", {"k": 0, "k1": 0, "k2": 0}, [0, 0]))
+            base_kind = fm.kind if fm.kind != "ia_decay" else "decay"
+            cols = (names + (["total"] if fm.readout else [])) if what == "variables" else list(fluxes_of(base_kind, {"k": 0, "k1": 0, "k2": 0}, [0, 0]))
             flat = [(r, row) for r in range(self.nrows) for row in exp[r]]
             ctx.true(f"{what}: one row per (scan row, time point), in input order", len(df) == len(flat), info=f"{len(df)} vs {len(flat)}")
             if len(df) != len(flat):
@@ -262,11 +271,13 @@ class Scan(Scenario):
                     ctx.true(f"{what}: index[{j}] = (row label, time)", label[0] == labels[r] and label[1] == t, info=f"{label} vs {(labels[r], t)}")
                 if what == "variables":
                     expv = dict(zip(names, y))
+                    if fm.readout:
+                        expv["total"] = 2 * y[0]
                 else:
                     pk = dict(p)
                     if self.kind == "ia_decay":
                         pk["k"] = pk["kia"]
-                    expv = fluxes_of("decay" if self.kind == "ia_decay" else self.kind, pk, y)
+                    expv = fluxes_of(base_kind, pk, y)
                     if self.kind == "ia_decay":
                         expv = {"v": expv["v"]}
                 for c in cols:
@@ -327,6 +338,13 @@ def scenarios(tier, seed):
         for par in (True,):
             scs.append(Scan("decay", sk, ("k", "x") if sk in ("ss", "tc") else ("x",), 2, par, via_mc=True))
     scs.append(Scan("decay", "mcscan", ("k",), 2, True))
+    # a failing row in a model with a readout (the placeholder must have the readout column as well)
+    for sk in ("ss", "tc"):
+        for par in (False, True):
+            scs.append(Scan("decay_ro", sk, ("k",), 2, par, fail_row=1))
+    # more rows than 4 x workers (pebble hands a worker several rows at once)
+    scs.append(Scan("ia_decay", "tc", ("x",), 5, True, via_mc=True, max_workers=1))
+    scs.append(Scan("decay", "tc", ("k", "x"), 5, True, via_mc=True, max_workers=1, read=("fluxes", "variables")))
     # minimal scenarios: parameter defined by an initial assignment of a scanned variable
     for par in (False, True):
         scs.append(Scan("ia_decay", "tc", ("x",), 2, par))
